@@ -621,7 +621,7 @@ class Evaluator:
                         P.locals[(fr['id'], ob['id'])] = ('call', 'container:' + n, (ot,) + tuple(args))
                     else:
                         # mutation through a pointer/reference parameter or other alias
-                        P.events.append(('write-through', ot, loc))
+                        P.events.append(('write-through', ot, loc, ('call', 'container:' + n, (ot,) + tuple(args))))
                         self.trace.writes.setdefault('*' + fmt(ot)[:40], []).append(loc)
                     return ('unk', 'call ' + q)
                 return ('mcall', ot, n, args)
